@@ -77,3 +77,67 @@ package tensor
 //@   assigns nothing
 //@   loop 0 invariant [acc] 0 <= i && i <= len(s) && acc == preprod(s, i) && len(retVal) == len(s) && fresh(retVal) && (forall j :: 0 <= j && j < i ==> retVal[j] == preprod(s, j))
 //@   loop 0 decreases len(s) - i
+
+// ---- C02 / C13: slicing ----
+
+//@ func tensor.Slice.Start
+//@   pure
+//@ func tensor.Slice.End
+//@   pure
+//@ func tensor.Slice.Step
+//@   pure
+
+//@ spec ceilDiv(a, b) int = (a + b - 1) / b
+//@ spec sliceOK(s, size) bool = s.Start() <= s.End() && s.Start() >= 0 && !(s.Step() == 0 && s.End() - s.Start() > 1) && s.Start() < size
+//@ spec slStart(s, size) int = isnil(s) ? 0 : s.Start()
+//@ spec slEnd(s, size) int = isnil(s) ? size : min(s.End(), size)
+//@ spec slStep(s) int = isnil(s) ? 1 : s.Step()
+//@ spec slValid(s, size) bool = isnil(s) || sliceOK(s, size)
+
+//@ func tensor.CheckSlice
+//@   props C02 C13
+//@   ensures [ok] (result == nil) <==> sliceOK(s, size)
+//@   assigns nothing
+
+//@ func tensor.SliceDetails
+//@   props C02 C13
+//@   ensures [err] (err == nil) <==> slValid(s, size)
+//@   ensures [values] err == nil ==> start == slStart(s, size) && end == slEnd(s, size) && step == slStep(s)
+//@   assigns nothing
+
+//@ spec slAt(slices, i) = i < len(slices) ? slices[i] : niliface()
+//@ spec aStart(ap, slices, i) int = slStart(slAt(slices, i), ap.shape[i])
+//@ spec aEnd(ap, slices, i) int = slEnd(slAt(slices, i), ap.shape[i])
+//@ spec aStep(ap, slices, i) int = slStep(slAt(slices, i))
+//@ spec aLen(ap, slices, i) int = aStep(ap, slices, i) > 0 ? ceilDiv(aEnd(ap, slices, i) - aStart(ap, slices, i), aStep(ap, slices, i)) : aEnd(ap, slices, i) - aStart(ap, slices, i)
+//@ spec aStride(ap, slices, i) int = aStep(ap, slices, i) > 0 ? ap.strides[i] * aStep(ap, slices, i) : ap.strides[i]
+//@ spec max1(x) int = x <= 0 ? 1 : x
+//@ spec cLen(ap, slices, i) int = aStep(ap, slices, i) > 0 ? max1((aEnd(ap, slices, i) - aStart(ap, slices, i)) / aStep(ap, slices, i) + (((aEnd(ap, slices, i) - aStart(ap, slices, i)) % aStep(ap, slices, i) > 0 && i > 0) ? 1 : 0)) : aEnd(ap, slices, i) - aStart(ap, slices, i)
+//@ spec aRegular(ap, slices, i) bool = aEnd(ap, slices, i) > aStart(ap, slices, i) && (i > 0 || aStep(ap, slices, i) <= 1 || (aEnd(ap, slices, i) - aStart(ap, slices, i)) % aStep(ap, slices, i) == 0)
+//@ spec aDropped(ap, slices, i) bool = aLen(ap, slices, i) == 1 && i < len(slices) && !isnil(slices[i])
+//@ spec nkept(ap, slices, i) int decreases i = i <= 0 ? 0 : nkept(ap, slices, i-1) + (aDropped(ap, slices, i-1) ? 0 : 1)
+//@ spec startOff(ap, slices, k, i) int decreases k = k <= 0 ? 0 : startOff(ap, slices, k-1, i) + (k-1 < i ? aStart(ap, slices, k-1) * ap.strides[k-1] : 0)
+//@ spec endCut(ap, slices, size, k, i) int decreases k = k <= 0 ? size : endCut(ap, slices, size, k-1, i) - (k-1 < i ? (ap.shape[k-1] - aEnd(ap, slices, k-1)) * ap.strides[k-1] : 0)
+//@ spec maxOff(d, s, n) int decreases n = n <= 0 ? 0 : maxOff(d, s, n-1) + (d[n-1] - 1) * s[n-1]
+
+//@ func tensor.AP.S
+//@   props C02 C13
+//@   mode rank ap.shape, ap.strides
+//@   let n = len(ap.shape)
+//@   requires [dims] forall i :: 0 <= i && i < n ==> ap.shape[i] >= 1 && ap.strides[i] >= 0
+//@   requires [fits] maxOff(ap.shape, ap.strides, n) < size
+//@   requires [distinct] ap.shape.arr != ap.strides.arr
+//@   ensures [arity] len(slices) > n ==> err != nil
+//@   ensures [err_iff] len(slices) <= n ==> ((err != nil) <==> (exists i :: 0 <= i && i < n && !slValid(slAt(slices, i), ap.shape[i])))
+//@   ensures [start] err == nil ==> ndStart == startOff(ap, slices, n, n)
+//@   ensures [end] err == nil ==> ndEnd == endCut(ap, slices, size, n, n)
+//@   ensures [scalar] err == nil && ndEnd - ndStart == 1 ==> len(newAP.shape) == 0 && len(newAP.strides) == 0
+//@   ensures [rank] err == nil && ndEnd - ndStart != 1 && (forall i :: 0 <= i && i < n ==> aRegular(ap, slices, i)) ==> len(newAP.shape) == nkept(ap, slices, n) && len(newAP.strides) == nkept(ap, slices, n)
+//@   ensures [shape] err == nil && ndEnd - ndStart != 1 && (forall i :: 0 <= i && i < n ==> aRegular(ap, slices, i)) ==> (forall i :: 0 <= i && i < n && !aDropped(ap, slices, i) ==> newAP.shape[nkept(ap, slices, i)] == aLen(ap, slices, i) && newAP.strides[nkept(ap, slices, i)] == aStride(ap, slices, i))
+//@   ensures [unchanged] unchanged(ap.shape) && unchanged(ap.strides) && unchanged(slices)
+//@   assigns nothing
+//@   loop 0 invariant [bounds] 0 <= i && i <= n && dims == n && err == nil && len(newShape) == n && len(newStrides) == n && fresh(newShape) && fresh(newStrides) && newShape.arr != newStrides.arr
+//@   loop 0 invariant [vals] forall j :: 0 <= j && j < n && j < i ==> newShape[j] == cLen(ap, slices, j) && newStrides[j] == aStride(ap, slices, j) && slValid(slAt(slices, j), ap.shape[j])
+//@   loop 0 invariant [rest] forall j :: 0 <= j && j < n && i <= j ==> newShape[j] == ap.shape[j]
+//@   loop 0 split i 0 n
+//@   loop 0 invariant [off] ndStart == startOff(ap, slices, n, i) && ndEnd == endCut(ap, slices, size, n, i)
